@@ -14,6 +14,8 @@ klass(FA, "RuleDBAbstract", fields={}, ghost_fields={"has_spec_now": Bool})
 klass(F, "CombinatorialSpecificationSearcher",
       fields={"ruledb": Obj("RuleDBAbstract"), "start_class": CombClass, "expand_verified": Bool})
 S = Obj("CombinatorialSpecificationSearcher")
+from . import class_db as _class_db   # noqa: E402  (declares ClassDB)
+REG.classes["CombinatorialSpecificationSearcher"].fields.update({"classdb": Obj("ClassDB"), "debug": Bool})
 
 contract(FA, "RuleDBAbstract.has_specification", props=["C01"], verify=False,
          trusted_reason="abstract method; each rule database's implementation is covered under C05/C11/C03",
@@ -33,22 +35,47 @@ contract(FA, "ensure_specification.inner", props=["C01", "C02"], lenient=True,
 contract(F, "CombinatorialSpecificationSearcher.has_specification", props=["C01"],
          params={"self": S}, returns=Bool, ensures=["result == self.ruledb.has_spec_now"], modifies=[])
 
-contract(F, "CombinatorialSpecificationSearcher._expand_classes_for", props=["C01"], verify=False,
-         trusted_reason="only its frame is used here: expanding classes may change the universe, hence whether a "
-                        "specification exists; its behaviour is covered by C04/C16/C17",
+_AL0 = {"CombClass": CombClass, "ClassKey": _class_db.ClassKey}
+_SEARCH_MODS = ["self.ruledb.has_spec_now", "self.ruledb.ver", "*self.classdb.comb_class_list", "*self.classdb.label_dict",
+                "*self.classdb.empty_list"]
+# ghost field ver: the rule database's CURRENT answer to is_verified(label); any expansion may change it
+REG.classes["RuleDBAbstract"].ghost_fields["ver"] = Map(Int, Bool)
+from .class_queue import Strat
+Packets = Seq(Strat)
+contract(FA, "RuleDBAbstract.is_verified", props=["C17", "C01"], verify=False,
+         trusted_reason="abstract method: reveals the database's current verification status of a label",
+         params={"self": Obj("RuleDBAbstract"), "label": Int}, returns=Bool, ensures=["result == self.ver[label]"],
+         modifies=[])
+contract(F, "CombinatorialSpecificationSearcher._expand", props=["C17", "C01"], verify=False,
+         trusted_reason="only its frame is used: an expansion may add rules, so both the existence of a specification and "
+                        "the verification status of ANY label may change (C04 covers what it records)",
+         params={"self": S, "comb_class": CombClass, "label": Int, "strategies": Packets, "inferral": Bool},
+         modifies=_SEARCH_MODS)
+contract(F, "CombinatorialSpecificationSearcher._log_status", props=["C17", "C01"], verify=False,
+         trusted_reason="logging only", params={"self": S, "start_time": Float, "status_update": Int}, modifies=[])
+contract(F, "CombinatorialSpecificationSearcher._expand_classes_for", props=["C01", "C17"], lenient=True,
+         aliases=_AL0,
          params={"self": S, "expansion_time": Float, "status_update": Opt(Int), "status_start": Float,
                  "auto_search_start": Float},
-         returns=Tup(Bool, Float), modifies=["self.ruledb.has_spec_now"])
+         returns=Tup(Bool, Float),
+         locals={"last_label": Opt(Int), "comb_class": CombClass, "$get_class": CombClass}, pure_calls=["get_class"],
+         # a packet is expanded only if verified classes are expanded anyway or its class is NOT verified at that very
+         # moment -- so how the work is cut into time slices (or resumed from a pickle) never changes what gets expanded
+         call_requires={"CombinatorialSpecificationSearcher._expand": ["self.expand_verified or not self.ruledb.ver[label]"]},
+         loops={0: dict(invariant=[], modifies=_SEARCH_MODS)},
+         modifies=_SEARCH_MODS,
+         notes="the queue is abstracted to the (arbitrary) sequence of packets it hands out; clock readings are arbitrary")
 
-contract(F, "CombinatorialSpecificationSearcher._auto_search_rules", props=["C01", "C17"], lenient=True,
+contract(F, "CombinatorialSpecificationSearcher._auto_search_rules", props=["C01", "C17"], lenient=True, aliases=_AL0,
          params={"self": S, "max_expansion_time": Opt(Float), "perc": Int, "smallest": Bool, "status_update": Opt(Int)},
          returns=RuleIter,
          may_raise=["ExceededMaxtimeError", "SpecificationNotFound"],
          ensures=["self.ruledb.has_spec_now"],       # rules are handed out only right after a positive test
          ensures_raise={"ExceededMaxtimeError": ["not is_none(max_expansion_time)", "not self.ruledb.has_spec_now"],
                         "SpecificationNotFound": ["not self.ruledb.has_spec_now"]},
-         modifies=["self.ruledb.has_spec_now"],
-         loops={0: dict(invariant=["expanding or not self.ruledb.has_spec_now"], modifies=["self.ruledb.has_spec_now"])},
+         modifies=_SEARCH_MODS,
+         loops={0: dict(invariant=["expanding or not self.ruledb.has_spec_now"],
+                        modifies=_SEARCH_MODS)},
          notes="for every sequence of clock readings and every number of iterations")
 
 contract(F, "CombinatorialSpecificationSearcher._log_spec_found", props=["C01"], verify=False,
@@ -64,13 +91,13 @@ contract("comb_spec_searcher/specification.py", "CombinatorialSpecification.__in
          params={"self": Obj("CombinatorialSpecification"), "root": CombClass, "rules": RuleIter, "group_equiv": Bool},
          ensures=["self.root == root", "self.rules_src == rules"], modifies=["*self"], self_invariant=False)
 
-contract(F, "CombinatorialSpecificationSearcher.auto_search", props=["C01"], lenient=True,
+contract(F, "CombinatorialSpecificationSearcher.auto_search", props=["C01"], lenient=True, aliases=_AL0,
          params={"self": S}, returns=Obj("CombinatorialSpecification"),
          may_raise=["ExceededMaxtimeError", "SpecificationNotFound"],
          ensures=["result.root == self.start_class", "self.ruledb.has_spec_now"],
          ensures_raise={"SpecificationNotFound": ["not self.ruledb.has_spec_now"],
                         "ExceededMaxtimeError": ["not self.ruledb.has_spec_now"]},
-         modifies=["self.ruledb.has_spec_now"],
+         modifies=_SEARCH_MODS,
          notes="the returned specification is rooted at the start class and built from the rules handed out by the loop")
 
 # ------------------------------------------------------------------ C04: what the searcher records
@@ -78,7 +105,6 @@ import z3
 from . import class_db, rule
 from .class_db import ClassKey
 klass(F, "CSSSearcherFull", fields={})     # placeholder (keeps registry order stable)
-REG.classes["CombinatorialSpecificationSearcher"].fields.update({"classdb": Obj("ClassDB"), "debug": Bool})
 CSSstrategy = Opaque("CSSstrategy")
 SAL = {"ClassKey": ClassKey, "CombClass": CombClass, "CSSstrategy": CSSstrategy}
 
